@@ -319,6 +319,30 @@ def make_strategy(script, observer=None, name='S'):
         def on_close_position(self, order):
             self._obs('on_close_position', order)
 
+        # events of the OTHER routes (scripts with an 'on_route' entry; used by oracle sessions only — the Lean model
+        # and the wire format know no such hook): a route that holds a position re-declares its stop-loss
+        def _route_event(self, name):
+            e = script.get('on_route')
+            if e and self.position.is_open:
+                sign = 1 if self.is_long else -1
+                self.stop_loss = (abs(self.position.qty), self.price - sign * e['sl'])
+            self._obs(name)
+
+        def on_route_open_position(self, strategy):
+            self._route_event('on_route_open_position')
+
+        def on_route_close_position(self, strategy):
+            self._route_event('on_route_close_position')
+
+        def on_route_increased_position(self, strategy):
+            self._route_event('on_route_increased_position')
+
+        def on_route_reduced_position(self, strategy):
+            self._route_event('on_route_reduced_position')
+
+        def on_route_canceled(self, strategy):
+            self._route_event('on_route_canceled')
+
         def on_cancel(self):
             self._obs('on_cancel')
 
@@ -332,7 +356,7 @@ def make_strategy(script, observer=None, name='S'):
     return Scripted
 
 
-def gen_script(rng, spot=False, step=0.125, rich=True, tight=False, force=None):
+def gen_script(rng, spot=False, step=0.125, rich=True, tight=False, force=None, route_hooks=False):
     """a random script biased to valid sessions (affordable sizes, no shorts on spot).
     tight=True: exits a few ticks from the entry so that several orders are reachable inside one minute"""
     def off(lo, hi):
@@ -416,6 +440,8 @@ def gen_script(rng, spot=False, step=0.125, rich=True, tight=False, force=None):
         s['liquidate_at'] = rng.randint(3, 40)
     if rich and style != 'none' and rng.random() < 0.25:
         s[rng.choice(['withdraw_tp_at', 'withdraw_sl_at'])] = rng.randint(1, 30)
+    if route_hooks and rng.random() < 0.8:
+        s['on_route'] = {'sl': off(4, 10)}
     return s
 
 
